@@ -15,6 +15,22 @@
 //! Queue drop (`qdrop=1`): when all producers have finished, the consumer drops the queue inside its actor
 //! and then goes on using the handles it still has (remove / is_link / drop) – handles outliving the list.
 //!
+//! Timer-thread pattern (`tt=1` in the header, about a quarter of the scenarios): the consumer mostly does what
+//! `TimeOutList::schedule_timer` does with an interval list (ops `s<b>`: `while pop_if(time <= now) {}; peek()`, and when
+//! that said None: `is_empty()`, and when that said false: `peek()` – the code does `.unwrap()` on this one) and the bare
+//! pair `E` = `is_empty(); peek()`, while the producers are in flight. These ops also occur in the other scenarios.
+//!
+//! Visibility oracles of `peek` (independent of the model; sound for every interleaving because `peek` – like `pop` and
+//! `pop_if` – returns None only if `head == stub`, i.e. no entry has been swapped in that is still in the list, and otherwise
+//! waits for the oldest entry to be linked; entries leave the list only through the consumer's own pop / pop_if / remove):
+//! * O1 `is_empty() = false but peek() = None`: the consumer has seen the list non-empty (is_empty() returned false, or a
+//!   peek() returned an entry) and has not taken anything out since (no pop / pop_if / remove of its own returned an entry;
+//!   nobody else ever removes: `remove` is a consumer-only operation and only t0 calls it) – then peek() (and pop()) must
+//!   return an entry;
+//! * O2 `peek() = None although a completed, unconsumed, unremoved push exists`: a push that had RETURNED before the
+//!   peek() call started and whose entry had not been popped / removed before that – whatever other producers are doing;
+//! * O3 (exactness) `peek() = Some(v)`: v is the oldest entry, in swap order, that has not been consumed before.
+//!
 //! Memory oracle: while a scenario of this family runs, freed memory is quarantined (`crate::valloc`: never reused,
 //! never returned to the system allocator), so a hooked access to a node after its `free` note, or a second
 //! `free` of the same node, is detected from the log instead of corrupting the heap of the harness.
@@ -51,6 +67,8 @@ enum COp {
     IsLink,
     Push(u64),
     QDrop,
+    EmptyPeek,  // `is_empty(); peek()`
+    Sched(u64), // the `schedule_timer` pattern with now = the bound
 }
 
 #[derive(Clone, Copy, Debug, PartialEq)]
@@ -70,7 +88,7 @@ enum Did {
     PopNone { completed_unconsumed: bool },
     Removed(u64),
     RemoveNone { v: u64, consumed_before: bool },
-    Peeked(Option<u64>),
+    Peeked { res: Option<u64>, completed_unconsumed: bool },
     Empty { res: bool, completed_unconsumed: bool },
 }
 
@@ -131,6 +149,36 @@ fn do_drop(h: Entry<Item>, v: u64) {
     ret("tl.drop", 0);
 }
 
+/// consumer: `peek()`; what the harness knows at the call (a completed push whose entry nobody has taken out) is recorded with the result
+fn do_peek(sh: &Shared, q: &Queue<Item>) -> Option<u64> {
+    let cu = sh.completed_unconsumed();
+    call("tl.peek", 0, 0);
+    let r = unsafe { q.peek() }.map(|it| it.v);
+    ret("tl.peek", r.unwrap_or(NONE));
+    sh.did.lock().unwrap().push(Did::Peeked { res: r, completed_unconsumed: cu });
+    r
+}
+
+fn do_is_empty(sh: &Shared, q: &Queue<Item>) -> bool {
+    let cu = sh.completed_unconsumed();
+    call("tl.is_empty", 0, 0);
+    let r = q.is_empty();
+    ret("tl.is_empty", r as u64);
+    sh.did.lock().unwrap().push(Did::Empty { res: r, completed_unconsumed: cu });
+    r
+}
+
+fn do_pop_if(sh: &Shared, q: &Queue<Item>, b: u64) -> Option<u64> {
+    call("tl.pop_if", b, 0);
+    let r = q.pop_if(&|it: &Item| it.v < b).map(|it| it.v);
+    ret("tl.pop_if", r.unwrap_or(NONE));
+    if let Some(v) = r {
+        sh.consumed.lock().unwrap().push(v);
+        sh.did.lock().unwrap().push(Did::Popped(v));
+    }
+    r
+}
+
 pub fn build(rng: &mut Rng, tier: u32) -> Built {
     let big = tier > 0;
     let np = 1 + rng.below(3) as usize; // producers
@@ -155,20 +203,41 @@ pub fn build(rng: &mut Rng, tier: u32) -> Built {
         plans.push(pl);
     }
     let ncop = (if big { 6 } else { 4 }) + rng.below(if big { 10 } else { 6 }) as usize;
+    let tt = rng.chance(250); // the timer-thread pattern dominates the consumer's program
     let mut cops = vec![];
     for _ in 0..ncop {
         let r = rng.below(100);
-        cops.push(if r < 28 {
+        cops.push(if tt {
+            if r < 40 {
+                COp::Sched(1 + rng.below(next_v + 2))
+            } else if r < 60 {
+                COp::EmptyPeek
+            } else if r < 72 {
+                COp::Pop
+            } else if r < 80 {
+                COp::Peek
+            } else if r < 93 {
+                COp::Remove
+            } else {
+                let v = next_v;
+                next_v += 1;
+                COp::Push(v)
+            }
+        } else if r < 25 {
             COp::Pop
-        } else if r < 43 {
+        } else if r < 39 {
             COp::PopIf(1 + rng.below(next_v + 2))
-        } else if r < 52 {
+        } else if r < 47 {
             COp::Peek
-        } else if r < 57 {
+        } else if r < 51 {
             COp::IsEmpty
-        } else if r < 82 {
+        } else if r < 57 {
+            COp::EmptyPeek
+        } else if r < 62 {
+            COp::Sched(1 + rng.below(next_v + 2))
+        } else if r < 83 {
             COp::Remove
-        } else if r < 87 {
+        } else if r < 88 {
             COp::DropH
         } else if r < 92 {
             COp::IsLink
@@ -217,6 +286,8 @@ pub fn build(rng: &mut Rng, tier: u32) -> Built {
             COp::IsLink => "l".into(),
             COp::Push(v) => format!("p{v}"),
             COp::QDrop => "Q".into(),
+            COp::EmptyPeek => "E".into(),
+            COp::Sched(b) => format!("s{b}"),
         })
         .collect::<Vec<_>>()
         .join("")];
@@ -265,47 +336,42 @@ pub fn build(rng: &mut Rng, tier: u32) -> Built {
                             ret("tl.qdrop", 0);
                         }
                     }
-                    COp::Pop | COp::PopIf(_) => {
+                    COp::Pop => {
                         let cu = sh.completed_unconsumed();
-                        let r = match op {
-                            COp::Pop => {
-                                call("tl.pop", 0, 0);
-                                let r = q.pop().map(|it| it.v);
-                                ret("tl.pop", r.unwrap_or(NONE));
-                                r
-                            }
-                            COp::PopIf(b) => {
-                                call("tl.pop_if", b, 0);
-                                let r = q.pop_if(&|it: &Item| it.v < b).map(|it| it.v);
-                                ret("tl.pop_if", r.unwrap_or(NONE));
-                                r
-                            }
-                            _ => unreachable!(),
-                        };
+                        call("tl.pop", 0, 0);
+                        let r = q.pop().map(|it| it.v);
+                        ret("tl.pop", r.unwrap_or(NONE));
                         match r {
                             Some(v) => {
                                 sh.consumed.lock().unwrap().push(v);
                                 sh.did.lock().unwrap().push(Did::Popped(v));
                             }
-                            None => {
-                                if let COp::Pop = op {
-                                    sh.did.lock().unwrap().push(Did::PopNone { completed_unconsumed: cu });
-                                }
-                            }
+                            None => sh.did.lock().unwrap().push(Did::PopNone { completed_unconsumed: cu }),
                         }
                     }
+                    COp::PopIf(b) => {
+                        do_pop_if(&sh, q, b);
+                    }
                     COp::Peek => {
-                        call("tl.peek", 0, 0);
-                        let r = unsafe { q.peek() }.map(|it| it.v);
-                        ret("tl.peek", r.unwrap_or(NONE));
-                        sh.did.lock().unwrap().push(Did::Peeked(r));
+                        do_peek(&sh, q);
                     }
                     COp::IsEmpty => {
-                        let cu = sh.completed_unconsumed();
-                        call("tl.is_empty", 0, 0);
-                        let r = q.is_empty();
-                        ret("tl.is_empty", r as u64);
-                        sh.did.lock().unwrap().push(Did::Empty { res: r, completed_unconsumed: cu });
+                        do_is_empty(&sh, q);
+                    }
+                    COp::EmptyPeek => {
+                        do_is_empty(&sh, q);
+                        do_peek(&sh, q);
+                    }
+                    COp::Sched(b) => {
+                        // `IntervalEntry::pop_timeout`: fire everything that is due, then look at the new head …
+                        while do_pop_if(&sh, q, b).is_some() {}
+                        if do_peek(&sh, q).is_none() {
+                            // … `schedule_timer`, list seen empty: "recheck if the interval list is empty, other thread may
+                            // append data to it"; if it is not, the code does `peek().unwrap()` (the oracle demands Some)
+                            if !do_is_empty(&sh, q) {
+                                do_peek(&sh, q);
+                            }
+                        }
                     }
                     COp::Remove => {
                         if let Some((v, h)) = take(&mut crng) {
@@ -395,7 +461,7 @@ pub fn build(rng: &mut Rng, tier: u32) -> Built {
         }));
     }
 
-    let header = format!("family=mq_tl actors={} race={} qdrop={} ops={}", names.len(), race as u32, qdrop as u32, desc.join(","));
+    let header = format!("family=mq_tl actors={} race={} qdrop={} tt={} ops={}", names.len(), race as u32, qdrop as u32, tt as u32, desc.join(","));
     QUARANTINE.store(true, Ordering::SeqCst);
     let sh2 = sh.clone();
     let names2 = names.clone();
@@ -495,6 +561,9 @@ fn oracle(r: &DetResult, sh: Arc<Shared>, names: &[String], pushers: &[Vec<u64>]
     let mut last_pop: Option<usize> = None;
     let mut pops: Vec<u64> = vec![];
     let mut gone: Vec<u64> = vec![];
+    // O1: what the consumer itself has observed: the list is not empty, and it has not taken anything out since
+    // (entries leave the list only through the consumer's own pop / pop_if / remove)
+    let mut seen_nonempty: Option<String> = None;
     for d in &did {
         match d {
             Did::Popped(v) => {
@@ -514,6 +583,7 @@ fn oracle(r: &DetResult, sh: Arc<Shared>, names: &[String], pushers: &[Vec<u64>]
                 }
                 pops.push(*v);
                 gone.push(*v);
+                seen_nonempty = None;
             }
             Did::Removed(v) => {
                 if gone.contains(v) {
@@ -525,6 +595,7 @@ fn oracle(r: &DetResult, sh: Arc<Shared>, names: &[String], pushers: &[Vec<u64>]
                     }
                 }
                 gone.push(*v);
+                seen_nonempty = None;
             }
             Did::RemoveNone { v, consumed_before } => {
                 if *v == u64::MAX - 1 {
@@ -536,8 +607,11 @@ fn oracle(r: &DetResult, sh: Arc<Shared>, names: &[String], pushers: &[Vec<u64>]
                 if *completed_unconsumed {
                     fails.push("visibility: pop returned None although a completed push was unconsumed".into());
                 }
+                if let Some(w) = &seen_nonempty {
+                    fails.push(format!("visibility: {w} but pop() = None (the consumer took nothing out in between)"));
+                }
             }
-            Did::Peeked(Some(v)) => {
+            Did::Peeked { res: Some(v), .. } => {
                 if gone.contains(v) {
                     fails.push(format!("peek: saw {v}, which had already been consumed"));
                 }
@@ -546,11 +620,34 @@ fn oracle(r: &DetResult, sh: Arc<Shared>, names: &[String], pushers: &[Vec<u64>]
                         fails.push(format!("peek: saw {v} (swap #{i}) after swap #{l} was popped"));
                     }
                 }
+                // O3: the entry peek shows is the oldest one (swap order) that has not been consumed
+                if let Some(w) = order.iter().find(|x| !gone.contains(x)) {
+                    if w != v && idx.contains_key(v) && !gone.contains(v) {
+                        fails.push(format!("peek: saw {v} (swap #{}) although {w} (swap #{}) is older and was neither popped nor removed", idx[v], idx[w]));
+                    }
+                }
+                seen_nonempty = Some(format!("peek() = Some({v})"));
             }
-            Did::Peeked(None) => {}
+            Did::Peeked { res: None, completed_unconsumed } => {
+                // O1
+                if let Some(w) = &seen_nonempty {
+                    fails.push(format!("visibility: {w} but peek() = None (the consumer took nothing out in between, nobody else removes)"));
+                }
+                // O2
+                if *completed_unconsumed {
+                    fails.push("visibility: peek() = None although a completed, unconsumed, unremoved push exists".into());
+                }
+            }
             Did::Empty { res, completed_unconsumed } => {
                 if *res && *completed_unconsumed {
                     fails.push("visibility: is_empty although a completed push was unconsumed".into());
+                }
+                if *res {
+                    if let Some(w) = &seen_nonempty {
+                        fails.push(format!("visibility: {w} but is_empty() = true (the consumer took nothing out in between)"));
+                    }
+                } else {
+                    seen_nonempty = Some("is_empty() = false".into());
                 }
             }
         }
